@@ -158,6 +158,16 @@ CLAIMED.update({
     ),
 })
 
+CLAIMED.update({
+    "C02": (
+        "sibling-agreement rule over the four FType traversals (constructor coverage computed from the type declarations), traversal-completeness analysis (TRAV: every Expr-bearing payload component visited on every path, helpers inlined), closed forms of the numbering chain / anchor unifications / fresh instantiation",
+        "Principality and annotation-erasure invariance over all constraint graphs are NOT decided. Decided for all programs: every FType traversal handles every component-carrying constructor (1 known finding: the unifier ignores type arguments of user generic types); "
+        "constraint collection, type-variable collection and substitution visit every sub-expression on every path; leftover variables are numbered by first occurrence in the function type; declared/fresh result type is unified with the body and kept in the returned definition; every reference instantiates a generic function afresh.",
+        "The unifier's case analysis itself is not decided. Rule (d)'s second clause was added after a seeded variant.",
+        "DESIGN.md §3 C02",
+    ),
+})
+
 NOT_APPLICABLE = {
 }
 
